@@ -4,7 +4,7 @@
    extracted model with the real base64/json behind them and re-checks the hypotheses on every
    oracle call. *)
 From YV Require Import Common.Tac C19.C19Str C19.C19StrCheck C19.C19Model C19.C19ProofsKV C19.C19ProofsPipe
-                       C19.C19ProofsSave C19.C19ProofsLoad.
+                       C19.C19ProofsSave C19.C19ProofsLoad C19.C19NonVacuity.
 Local Open Scope N_scope.
 
 (* key=value: reverse (transform d) = d with every value as text, keys in sorted order, for every
